@@ -85,7 +85,7 @@ func VerifC02_History() {
 		if step == L-1 {
 			op = 1
 		} else if step > 0 {
-			op = sym.Choice("op", 4)
+			op = sym.Choice("op", 5)
 		}
 		switch op {
 		case 0: // vote
@@ -137,6 +137,16 @@ func VerifC02_History() {
 		case 3: // periodic catch-up
 			_ = env.K.UpdateValidatorNoncesToLatest(env.Ctx, c02Chain)
 			sym.Reach("catch-up")
+		case 4: // a validator's bonded power changes between vote and tally
+			v := sym.Choice("restaked", V)
+			np := sym.IntRange("new-power", 0, 1<<40)
+			total += np - powers[v]
+			powers[v] = np
+			sv := env.Staking.Find(c02Vals[v])
+			sv.Power, sv.Tokens = np, sdkmath.NewInt(np)
+			env.Staking.TotalPower = sdkmath.NewInt(total)
+			sym.Assume(total > 0)
+			sym.Reach("power-changed")
 		}
 	}
 }
